@@ -8,10 +8,11 @@ from ..gen import G, I
 ID = "C15"
 LEVEL = "exploration"
 RULE = ("cases are expression trees (depth <= 4) whose leaves are calls of logging functions (one logger per result type; "
-        "recursive loggers keep temporaries live across nested activations), combined by binary operators (printed with the "
+        "recursive loggers keep temporaries live across nested activations) and - in half of the cases - BARE reads of mutable state (a variable, a list element, an object field) "
+        "next to logging calls that change that state, combined by binary operators (printed with the "
         "minimal parentheses of the precedence table, or explicitly parenthesised), calls with 0-4 arguments whose callees "
         "log on entry, method calls, list and map literals, indexing, &&, ||, `or`; the oracle is the reference interpreter's "
-        "log sequence followed by the value. Non-trivial = >= 3 logging leaves of which one is nested >= 2 deep; distinct by "
+        "log sequence followed by the value. Non-trivial = >= 3 logging leaves of which one is nested >= 2 deep, or a bare state read and a mutator in one expression; distinct by "
         "program text")
 ASSUMPTIONS = ["operator precedence as in the compiler's Pratt table (all binary operators left-associative)"]
 
@@ -33,6 +34,19 @@ def prelude():
             ("return", ("bin", "+", ("call", V("Li"), [("bin", "+", ("bin", "*", V("k"), I(100)), V("d")), I(0)]),
                         ("selfcall", [("bin", "-", V("d"), I(1)), V("k"), V("v")])))], None),
         ("return", V("v"))]), ()))
+    # mutable state read by BARE operands (variable, list element, object field) and changed by logging mutators: an
+    # operand's value must be the one it had when ITS turn came, whatever later siblings do to the variable
+    st_.append(("decl", "acc", None, I(1), ()))
+    st_.append(("decl", "cell", ("list", "int"), ("list", [I(10), I(20), I(30)]), ()))
+    st_.append(("class", "P", [("v", "int")], [("v", "int")], [("setf", V("self"), "v", V("v"))], []))
+    st_.append(("decl", "p", None, ("new", "P", [I(5)]), ()))
+    log = lambda: ("print", ("bin", "+", S("m"), V("k")))
+    st_.append(("decl", "M", None, ("fn", [("k", "int"), ("d", "int")], "int",
+                [log(), ("decl", "acc", None, ("bin", "+", V("acc"), V("d")), ("modify",)), ("return", V("acc"))]), ()))
+    st_.append(("decl", "ML", None, ("fn", [("k", "int"), ("d", "int")], "int",
+                [log(), ("seti", V("cell"), I(1), ("bin", "+", ("index", V("cell"), I(1)), V("d"))), ("return", ("index", V("cell"), I(1)))]), ()))
+    st_.append(("decl", "MP", None, ("fn", [("k", "int"), ("d", "int")], "int",
+                [log(), ("setf", V("p"), "v", ("bin", "+", ("field", V("p"), "v"), V("d"))), ("return", ("field", V("p"), "v"))]), ()))
     for n in range(0, 5):
         params = [("a%d" % i, "int") for i in range(n)]
         body = [("print", S("A%d" % n))]
@@ -50,6 +64,9 @@ class Ctx:
         self.k = 0
         self.leaves = 0
         self.maxdepth = 0
+        self.state = g.chance(50)       # half of the cases mix bare state reads and mutators into the leaves
+        self.reads = 0
+        self.mutators = 0
 
     def key(self):
         self.k += 1
@@ -60,6 +77,17 @@ def leaf(c, t, nest):
     c.leaves += 1
     c.maxdepth = max(c.maxdepth, nest)
     g = c.g
+    if t == "int" and c.state:
+        ch = g.weighted([(70, "log"), (16, "read"), (14, "mutate")])
+        if ch == "read":
+            c.reads += 1
+            g.label("state-read")
+            e = g.choice([V("acc"), V("acc"), ("index", V("cell"), I(1)), ("field", V("p"), "v"), ("paren", V("acc"))])
+            return e
+        if ch == "mutate":
+            c.mutators += 1
+            g.label("state-mutate")
+            return ("call", V(g.choice(["M", "M", "ML", "MP"])), [c.key(), I(g.int(1, 9))])
     if t == "int":
         if g.chance(15):
             g.label("recursive-logger")
@@ -156,8 +184,12 @@ def cases(draw):
         stmts.append(("print", ("mcall", V("m"), "len", [])))
     else:
         stmts.append(("print", ("bin", "+", ("bin", "+", S("v="), gen(c, "int", depth, 1)), gen(c, "str", depth - 1, 1))))
+    if c.state:
+        stmts += [("print", V("acc")), ("print", V("cell")), ("print", ("field", V("p"), "v"))]
+        if c.reads and c.mutators:
+            g.label("state-read-and-mutate-in-one-expression")
     return {"stmts": stmts, "labels": sorted(g.labels) + ["form=" + form, "depth=%d" % depth],
-            "nt": c.leaves >= 3 and c.maxdepth >= 2, "leaves": c.leaves}
+            "nt": (c.leaves >= 3 and c.maxdepth >= 2) or (c.reads >= 1 and c.mutators >= 1), "leaves": c.leaves}
 
 
 PRELUDE = prelude()
